@@ -130,6 +130,23 @@ theorem transfer_ok {sg : List Key} {w w' : World} {src dst : Key} {n : Nat}
   injection h with h
   refine ⟨by rw [← h]; rfl, by omega, by simpa using h1, by simpa using h2⟩
 
+/-- The credit of a `Transfer` cannot wrap when the two balances together stay below `2^64`. -/
+theorem transfer_no_overflow {sg : List Key} {w : World} {src dst : Key} {n : Nat} (hne : src ≠ dst)
+    (hsum : (w src).lamports + (w dst).lamports < 2 ^ 64) :
+    transfer sg w src dst n ≠ .error .arithmeticOverflow := by
+  have hne' : dst ≠ src := fun e => hne e.symm
+  unfold transfer
+  split; · simp
+  split; · simp
+  split; · simp
+  split; · simp
+  simp only []
+  rename_i h3 _
+  rw [setLamports_other _ _ hne']
+  split
+  · rename_i hov; exfalso; omega
+  · simp
+
 theorem allocate_ok {sg : List Key} {w w' : World} {k : Key} {sp : Nat}
     (h : allocate sg w k sp = .ok w') :
     w' = w.set k { w k with data := List.replicate sp 0 } ∧ (w k).data = [] ∧ (w k).owner = systemId
